@@ -437,3 +437,30 @@ Section GivenLabels.
     - cbn. lia.
   Qed.
 End GivenLabels.
+
+
+(* ---- next() on the object iter_periods() returns (fix 7e39627): the FIRST period of the range comes first ---- *)
+Section PeriodIterNext.
+  Variable L : Type.
+  Variable locate : L -> locres.
+  Theorem period_iter_next_first d span start end_ a b lab :
+    given_ok L locate start a -> given_ok L locate end_ b -> resolves_start L d span start a -> resolves_end L d span end_ b ->
+    (a <= b)%nat -> nth_error span a = Some lab ->
+    period_iter_next_M (iter_periods_M L locate d span start end_) = Ret (Z.of_nat a, lab).
+  Proof.
+    intros Gs Ge Hs He Hab Hl. rewrite (iter_periods_given L locate d span start end_ a b Gs Ge Hs He).
+    pose proof (resolves_end_lt L d span end_ b He) as Hb.
+    assert (H0 : nth_error (periods L span a b) 0 = Some (Z.of_nat a, lab)).
+    { apply (positions_exact L span a b Hb). split; [lia|]. replace (a + 0)%nat with a by lia. split; [reflexivity|exact Hl]. }
+    destruct (periods L span a b) as [|p ps]; cbn [nth_error] in H0; [discriminate|]. inversion H0; subst. reflexivity.
+  Qed.
+  (* a reversed (empty) range: StopIteration *)
+  Theorem period_iter_next_empty d span start end_ a b :
+    given_ok L locate start a -> given_ok L locate end_ b -> resolves_start L d span start a -> resolves_end L d span end_ b ->
+    (b < a)%nat ->
+    period_iter_next_M (iter_periods_M L locate d span start end_) = Raise OtherError.
+  Proof.
+    intros Gs Ge Hs He Hba. rewrite (iter_periods_given L locate d span start end_ a b Gs Ge Hs He).
+    rewrite (periods_reversed_empty L span a b Hba). reflexivity.
+  Qed.
+End PeriodIterNext.
